@@ -397,6 +397,10 @@ package mqtt
 //@        evIndex("go:(*BaseClient).Connect$1", 0) < evIndex("(*BaseClient).write", 0)
 //@   ensures[C17] handler_untouched: evCount("store:BaseClient.handler") == 0
 //@   ensures[C07] waiter: evCount("select") == 1 ==> fresh(evArg[chan *pktConnAck]("select", 0, 2)) && evIndex("(*BaseClient).write", 0) < evIndex("select", 0)
+//@   ensures[C05,C09] options_carried: evCount("(*pktConnect).Pack") == 1 ==> evArg[*pktConnect]("(*pktConnect).Pack", 0, 0).KeepAlive == o.KeepAlive &&
+//@        evArg[*pktConnect]("(*pktConnect).Pack", 0, 0).CleanSession == o.CleanSession && evArg[*pktConnect]("(*pktConnect).Pack", 0, 0).UserName == o.UserName &&
+//@        evArg[*pktConnect]("(*pktConnect).Pack", 0, 0).Password == o.Password && evArg[*pktConnect]("(*pktConnect).Pack", 0, 0).Will == o.Will &&
+//@        evArg[*pktConnect]("(*pktConnect).Pack", 0, 0).ProtocolLevel == o.ProtocolLevel
 //@   ensures[C07] registered_first: evCount("(*BaseClient).write") == 1 ==> evCount("store:signaller.chConnAck") == 1 &&
 //@        evIndex("store:signaller.chConnAck", 0) < evIndex("(*BaseClient).write", 0) && evArg[*signaller]("store:signaller.chConnAck", 0, 0) == c.sig &&
 //@        (evCount("select") == 1 ==> evArg[chan *pktConnAck]("store:signaller.chConnAck", 0, 1) == evArg[chan *pktConnAck]("select", 0, 2)) &&
@@ -407,3 +411,42 @@ package mqtt
 //@   ensures[C11,C19] cancel_cause: evCount("select") == 1 && evRet[int]("select", 0, 0) == 1 && asError(result1) != nil ==>
 //@        evArg[context.Context]("context.Context.Err", 0, 0) == ctx && asError(result1).Err == evRet[error]("context.Context.Err", 0, 0)
 //@   ensures[C11,C19] closed_cause: evCount("select") == 1 && evRet[int]("select", 0, 0) == 0 ==> result1 == ErrClosedTransport
+
+// ---- CONNECT option constructors (C05): each sets exactly its own fields ----
+
+//@ func WithUserNamePassword$1
+//@   mode int
+//@   props C05
+//@   requires o != nil
+//@   assigns o.UserName; o.Password
+//@   ensures[C05] sets: result == nil && o.UserName == userName && o.Password == password
+
+//@ func WithKeepAlive$1
+//@   mode int
+//@   props C05 C13
+//@   requires o != nil
+//@   assigns o.KeepAlive
+//@   ensures[C05,C13] sets: result == nil && o.KeepAlive == interval
+
+//@ func WithCleanSession$1
+//@   mode int
+//@   props C05
+//@   requires o != nil
+//@   assigns o.CleanSession
+//@   ensures[C05] sets: result == nil && o.CleanSession == cleanSession
+
+//@ func WithWill$1
+//@   mode int
+//@   props C05
+//@   requires o != nil && will != nil
+//@   assigns o.Will
+//@   let w0 *Message = o.Will
+//@   ensures[C05] sets: will.QoS <= QoS2 ==> result == nil && o.Will == will
+//@   ensures[C05] rejects_bad_qos: will.QoS > QoS2 ==> result != nil && o.Will == w0
+
+//@ func WithProtocolLevel$1
+//@   mode int
+//@   props C05
+//@   requires o != nil
+//@   assigns o.ProtocolLevel
+//@   ensures[C05] sets: result == nil && o.ProtocolLevel == level
